@@ -171,7 +171,7 @@ static void do_case(Rng& g, const StrokeInput& in0, const Params& pr) {
     Paths64 rev = paths;
     for (auto& p : rev) if (g.chance(80)) std::reverse(p.begin(), p.end());
     Paths64 sol_rev = run_real(rev, pr, d);
-    emitS("stroke.direction", "SAMEREGION " + cmp_tol.s() + " " + S(sol) + " " + S(sol_rev) + " " + vo::S(probes, true));
+    emitS("stroke.direction", "STROKE_SAMEREGION " + cmp_tol.s() + " " + S(sol) + " " + S(sol_rev) + " " + vo::S(probes, true));
     // the reversed input is an input in its own right
     if (g.chance(30)) emitS("stroke." + tag, stroke_request(pr, rev, sol_rev, probes));
   }
@@ -212,7 +212,7 @@ static void do_case(Rng& g, const StrokeInput& in0, const Params& pr) {
         // sliver between two nearly parallel raw edges differently when the scanbeams change, so the judged statement is
         // the property's own: the *region* is the same (2 units of rounding).
         if (canon_closed(sol) == canon_closed(near_part)) stat("distant.canonical_paths_identical"); else stat("distant.canonical_paths_differ");
-        emitS("stroke.distant", "SAMEREGION 2 1 " + S(sol) + " " + S(near_part) + " " + vo::S(probes, true));
+        emitS("stroke.distant", "STROKE_SAMEREGION 2 1 " + S(sol) + " " + S(near_part) + " " + vo::S(probes, true));
         stat("distant.far_path_points." + std::to_string(std::min(n, 3)));
       }
     }
